@@ -122,7 +122,7 @@ def checked_by_guard(f, call, p):
 
 def r2(ctx, prog):
     ctx.rule('C15.R2', 'A9d: what is reported comes from successful reads only: every datagram value that flows into the result '
-                       '(addresses, names, label text) is control dependent on the success of the read that produced it', floor=3)
+                       '(addresses, names, label text) is control dependent on the success of the read that produced it', floor=2)
     f, fs = parse_funcs(prog)
     n = 0
     for g in fs:
@@ -173,8 +173,8 @@ def r2(ctx, prog):
             ctx.ob('C15.R2', '%s|report@%s' % (g.name, g.path(s_['obj']) if 'obj' in s_ else 'oss'), not bad,
                    'every contributing read is success-checked' if not bad else
                    'reported value depends on unchecked reads: ' + '; '.join(sorted(set(bad))[:4]), where=g.loc(s_['i']))
-    if n < 3:
-        raise AnalysisBroken('expected >=3 report sinks (a_vec, cname_vec, label text), found %d' % n)
+    if n < 2:
+        raise AnalysisBroken('expected >=2 report sinks (a_vec, cname_vec), found %d' % n)
 
 
 def _expand_names(f, e, depth=0):
@@ -396,6 +396,30 @@ def r5(ctx, prog):
         okr = bool(adds) and bool(idrets) and all(any(g.cfg.dominates(q.pt(g, a), q.pt_or_term(g, r)) for a in adds) for r in idrets)
         ctx.ob('C15.R5', '%s|registers' % g.name, okr, 'every return of a request id is preceded by addRequest()' if okr else
                'request() hands out an id without registering the lookup: neither a reply nor the time-out ever reaches its callback', where=g.loc(g.body))
+    if rq:
+        # the id under which the lookup is stored is not one of an outstanding lookup: it comes from a counter that only counts up, or it is looked up in requests_ first
+        g = rq[0]
+        idv = None
+        for a in q.calls(g, callee=DNS + '::addRequest'):
+            x = g.s(g.strip_casts(a['args'][0])) if a.get('args') else None
+            if x is not None and x['k'] == 'DeclRefExpr' and x.get('dk') == 'Var':
+                idv = x
+        fresh, how = False, 'the id handed to addRequest() was not found'
+        if idv is not None:
+            defs = rd.local_defs(g, idv['d'])
+            counter = [d for d in defs if d['rhs'] is not None and (g.s(g.strip_casts(d['rhs'])) or {}).get('k') == 'UnaryOperator' and (g.s(g.strip_casts(d['rhs'])) or {}).get('op') == '++' and
+                       g.field_of((g.s(g.strip_casts(d['rhs'])) or {}).get('ch', [None])[0])]
+            probed = [c for c in g.calls() if c.get('fn') in ('find', 'count', 'findRequest') and (c.get('obj') is None or (g.field_of(c['obj']) or '').endswith('requests_')) and
+                      any(g.stmts[y]['k'] == 'DeclRefExpr' and g.stmts[y].get('d') == idv['d'] for a_ in c.get('args', []) for y in g.walk(a_))]
+            if defs and len(counter) == len(defs):
+                fresh, how = True, 'ids come from a counter that only counts up (%s)' % g.path(g.s(g.strip_casts(counter[0]['rhs']))['ch'][0])
+            elif probed:
+                fresh, how = True, 'the drawn id is looked up in requests_ before it is used'
+            else:
+                how = 'the id is neither taken from a counter that only counts up nor looked up in requests_ before use'
+        ctx.ob('C15.R5', '%s|fresh-id' % g.name, fresh, how if fresh else
+               '%s: two outstanding lookups can get the same id, the later one overwrites the earlier record — the earlier callback is never invoked and its reply completes the wrong '
+               'lookup' % how, where=g.loc(g.body))
     store = [st for st in ad.stmts if st and st['k'] in ('BinaryOperator', 'CXXOperatorCallExpr') and st.get('op') == '=' and 'requests_' in ad.path(st['ch'][0] if st['k'] == 'BinaryOperator' else st.get('obj', -1))] + \
             [c for c in ad.calls() if c.get('fn') in ('emplace', 'insert') and c.get('obj') is not None and (ad.field_of(c['obj']) or '').endswith('requests_')]
     cbset = [a for a, rhs in q.assigns(ad, 'Request::cb')]
@@ -771,6 +795,7 @@ def run(ctx):
     ctx.guard(r11, ctx, prog)
     ctx.guard(r12, ctx, prog)
     ctx.guard(r13, ctx, prog)
+    ctx.guard(harden.run_fixed, ctx, prog, 'C15.R14', parse_funcs(prog)[1], 'datagram path')
     ctx.guard(harden.run, ctx, prog, 'C15.R8', [prog.fn1(DNS + '::onUdpRecv')],
               lambda g: g.file.startswith(MODULES + '/network/') or g.file.startswith(MODULES + '/util/'), 'DNS datagram path')
     return prog
